@@ -545,3 +545,325 @@ def run_async(coro):
         finally:
             asyncio.set_event_loop(None)
             loop.close()
+
+
+# ------------------------------------------------------------------------------------
+# cases: evaluation on the real code, model line(s), oracle
+
+OPS = [("stream", True), ("stream", False), ("play", True), ("play", False)]
+
+
+def fault_str(fault):
+    return "-" if fault is None else f"{fault[0]}:{fault[1]}"
+
+
+def csv(xs):
+    return ",".join(xs) if xs else "-"
+
+
+def variants():
+    """(op, vol_known): the six scripts (volume only matters for stream_file)."""
+    out = []
+    for op in OPS:
+        for vol in ((True, False) if op[0] == "stream" else (True,)):
+            out.append((op, vol))
+    return out
+
+
+def evaluate(case):
+    """Run one case on the real code.  Returns (observation, model_lines)."""
+    fam = case["family"]
+    if fam == "connect":
+        fault = tuple(case["fault"]) if case["fault"] else None
+        obs = run_async(run_connect(case["subset"], fault[0] if fault else None, fault[1] if fault else "fail"))
+        return obs, [f"run connect:{csv([str(i) for i in case['subset']])} - {fault_str(fault)}"]
+    if fam == "single":
+        op, vol = tuple(case["op"]), case["vol"]
+        fault = tuple(case["fault"]) if case["fault"] else None
+        obs = run_async(scenario_single(op, vol, fault[0] if fault else None, fault[1] if fault else "fail",
+                                        tuple(case["foreign"])))
+        return obs, [f"run {op_name(op, vol)} {csv(obs['env'])} {fault_str(fault)}"]
+    if fam == "overlap":
+        op1, op2, vol = tuple(case["op1"]), tuple(case["op2"]), case["vol"]
+        fault2 = tuple(case["fault2"]) if case["fault2"] else None
+        obs = run_async(scenario_overlap(op1, op2, vol, case["park"], fault2[0] if fault2 else None,
+                                         fault2[1] if fault2 else "fail"))
+        lines = [f"held {op_name(op1, vol)} - {case['park']}"]
+        if obs["reached"]:
+            lines.append(f"run {op_name(op2, vol)} {csv(obs['held'])} {fault_str(fault2)}")
+            lines.append(f"run {op_name(op1, vol)} - -")
+        return obs, lines
+    if fam == "seq":
+        obs = run_async(scenario_seq(case["vol"], case["steps"]))
+        lines = []
+        for st, o in zip(case["steps"], obs["steps"]):
+            fault = tuple(st["fault"]) if st["fault"] else None
+            lines.append(f"run {op_name(tuple(st['op']), o['volflag'])} {csv(o['env'])} {fault_str(fault)}")
+        return obs, lines
+    raise ValueError(fam)
+
+
+async def scenario_seq(vol_known, steps):
+    """Several calls one after the other on ONE device object; between calls a foreign
+    protocol may take over / release interfaces."""
+    rig = await Rig(vol_known).setup()
+    out = []
+    try:
+        before_tasks = set(asyncio.all_tasks())
+        for st in steps:
+            if st["foreign"] is not None:
+                if rig.foreign_release:
+                    rig.foreign_release()
+                    rig.foreign_release = None
+                if st["foreign"]:
+                    rig.foreign_takeover(st["foreign"])
+            env = rig.world.ledger()
+            ids0 = rig.world.open_ids()
+            fault = st["fault"]
+            plan = Plan(fault[0], fault[1]) if fault else Plan()
+            # which script variant applies is decided by real state: the receiver's initial
+            # volume is only used while the volume has never been set on this device object
+            volflag = vol_known and not rig.raop.audio.has_changed_volume
+            o = await rig.run_op(tuple(st["op"]), plan)
+            out.append({"outcome": o, "env": env, "ledger": rig.world.ledger(), "points": plan.n, "volflag": volflag,
+                        "untouched": all(x in rig.world.open_ids() for x in ids0),
+                        "stray_tasks": len(stray(before_tasks))})
+        if rig.foreign_release:
+            rig.foreign_release()
+        later = await rig.run_op(("stream", True), Plan())
+        return {"steps": out, "later": later, "later_ledger": rig.world.ledger()}
+    finally:
+        rig.teardown()
+
+
+def parse_run(ans):
+    parts = ans.split(" ")
+    if len(parts) != 3:
+        return None
+    return {"outcome": parts[0], "ledger": [] if parts[1] == "-" else parts[1].split(","), "points": int(parts[2])}
+
+
+def point_name(obs, fault):
+    names = obs.get("names") or []
+    if fault and fault[0] < len(names):
+        return names[fault[0]]
+    return "-"
+
+
+def judge(case, obs):
+    """The property, evaluated directly on what the real code did (independent of the
+    Lean model).  Returns [(sig, what)]."""
+    fam = case["family"]
+    bad = []
+    if fam == "connect":
+        if obs["outcome"] == "fail":
+            if obs["ledger"]:
+                bad.append(("connect:leak", f"connect() failed but still holds {obs['ledger']}"))
+            if obs["stray_tasks"]:
+                bad.append(("connect:task", f"{obs['stray_tasks']} background task(s) left behind by failed connect()"))
+        return bad
+
+    def failed_call(tag, o, env, later=None, later_ledger=None):
+        if o["outcome"] in ("ok",) or o["outcome"].startswith("err:"):
+            return
+        if o["ledger"] != env:
+            extra = list(o["ledger"])
+            for x in env:
+                if x in extra:
+                    extra.remove(x)
+            missing = [x for x in env if o["ledger"].count(x) < env.count(x)]
+            if extra:
+                bad.append((f"{tag}:leak:{o['outcome']}", f"{o['outcome']} call still holds {extra} (ledger before {env}, after {o['ledger']})"))
+            if missing:
+                bad.append((f"{tag}:disturbed:{o['outcome']}", f"{o['outcome']} call released what others held: {missing}"))
+        if not o.get("untouched", True):
+            bad.append((f"{tag}:disturbed:{o['outcome']}", "objects held before the call were closed by the failed call"))
+        if o.get("stray_tasks"):
+            bad.append((f"{tag}:task:{o['outcome']}", f"{o['stray_tasks']} task(s) left behind"))
+
+    if fam == "single":
+        tag = case["op"][0] + "@" + point_name(obs, case["fault"]) + ("+foreign" if case["foreign"] else "")
+        failed_call(tag, obs, obs["env"])
+        if obs["outcome"] in ("fail", "cancel", "refused") and obs["later"] != "ok":
+            bad.append((f"{tag}:later-stream:{obs['outcome']}",
+                        f"after a {obs['outcome']} call a new stream_file ends with {obs['later']}"))
+    elif fam == "overlap":
+        if not obs["reached"]:
+            return bad
+        tag = f"overlap:{case['op1'][0]}/{case['op2'][0]}"
+        failed_call(tag, {"outcome": obs["outcome2"], "ledger": obs["ledger2"], "untouched": obs["untouched"]}, obs["held"])
+        if obs["outcome2"] in ("fail", "cancel", "refused") and obs["later"] != "ok":
+            bad.append((f"{tag}:later-stream", f"after the overlap a new stream_file ends with {obs['later']}"))
+    elif fam == "seq":
+        anyfail = False
+        for i, o in enumerate(obs["steps"]):
+            failed_call(f"seq:{case['steps'][i]['op'][0]}", o, o["env"])
+            anyfail = anyfail or o["outcome"] in ("fail", "cancel", "refused")
+        if anyfail and not bad and obs["later"] != "ok":
+            bad.append(("seq:later-stream", f"after the sequence a new stream_file ends with {obs['later']}"))
+    return bad
+
+
+def compare(ctx, case, obs, answers):
+    """Correspondence: model answers vs. the real code."""
+    fam = case["family"]
+
+    def cmp_run(ans, o, where):
+        m = parse_run(ans)
+        impl = {"outcome": o["outcome"], "ledger": o["ledger"], "points": o["points"]}
+        ctx.validated()
+        if m != impl:
+            ctx.disagree(case, impl, ans, where=where)
+
+    if fam in ("connect", "single"):
+        cmp_run(answers[0], obs, fam)
+    elif fam == "overlap":
+        ctx.validated()
+        if not obs["reached"]:
+            if answers[0] != "end":
+                ctx.disagree(case, "end", answers[0], where="overlap: park point reachable?")
+            return
+        if answers[0] != csv(obs["held"]):
+            ctx.disagree(case, csv(obs["held"]), answers[0], where="overlap: held while parked")
+        cmp_run(answers[1], {"outcome": obs["outcome2"], "ledger": obs["ledger2"], "points": obs["points2"]}, "overlap: second call")
+        m1 = parse_run(answers[2])
+        ctx.validated()
+        if m1 is None or m1["outcome"] != obs["outcome1"] or m1["ledger"] != obs["ledger1"]:
+            ctx.disagree(case, [obs["outcome1"], obs["ledger1"]], answers[2], where="overlap: first call resumed")
+    elif fam == "seq":
+        for ans, o in zip(answers, obs["steps"]):
+            cmp_run(ans, o, "seq step")
+
+
+def dry_points(op, vol):
+    return run_async(scenario_single(op, vol, None, "fail"))["points"]
+
+
+def gen_cases(ctx):
+    cases = []
+    # A. connect(): every subset x every failing position (+ success; + cancellation, compared only)
+    n = len(protocol_order())
+    for mask in range(1, 2 ** n):
+        subset = [i for i in range(n) if mask >> i & 1]
+        cases.append({"family": "connect", "subset": subset, "fault": None})
+        for k in range(len(subset)):
+            cases.append({"family": "connect", "subset": subset, "fault": [k, "fail"]})
+            if ctx.thorough or k == len(subset) - 1:
+                cases.append({"family": "connect", "subset": subset, "fault": [k, "cancel"]})
+    # B. one streaming call, a failure and a cancellation at every collaborator call,
+    #    alone and while another protocol holds a takeover
+    npts = {}
+    foreigns = [[], [3], [0], [0, 1, 2, 3]]
+    for op, vol in variants():
+        npts[(op, vol)] = N = dry_points(op, vol)
+        for foreign in foreigns:
+            faults = [None] + [[k, kind] for k in range(N) for kind in ("fail", "cancel")]
+            if foreign and not ctx.thorough:
+                faults = [None] + [[k, kind] for k in range(min(N, 2)) for kind in ("fail", "cancel")]
+            for f in faults:
+                cases.append({"family": "single", "op": list(op), "vol": vol, "fault": f, "foreign": foreign})
+    # C. every overlap of two calls: the first parked at every point, then a second call
+    for op1, vol in variants():
+        for park in range(npts[(op1, vol)] + 1):       # +1: a point the call never reaches
+            for op2 in OPS:
+                N2 = npts[(op2, vol if op2[0] == "stream" else True)]
+                lim = N2 if ctx.thorough else min(N2, 2)
+                faults = [None] + [[k, kind] for k in range(lim) for kind in ("fail", "cancel")]
+                for f2 in faults:
+                    cases.append({"family": "overlap", "op1": list(op1), "op2": list(op2), "vol": vol,
+                                  "park": park, "fault2": f2})
+    # D. PRNG-chosen sequences of calls on one device object
+    rng = ctx.rng.fork("seq")
+    for _ in range(ctx.scale(60, 600)):
+        vol = rng.random() < 0.5
+        steps = []
+        for _i in range(rng.randint(2, 5)):
+            op = OPS[rng.randint(0, len(OPS) - 1)]
+            N = npts[(op, vol if op[0] == "stream" else True)]
+            r = rng.random()
+            fault = None if r < 0.2 else [rng.randint(0, N - 1), "fail" if rng.random() < 0.5 else "cancel"]
+            fr = rng.random()
+            foreign = None if fr < 0.5 else ([] if fr < 0.7 else sorted(set(rng.randint(0, 3) for _ in range(rng.randint(1, 3)))))
+            steps.append({"op": list(op), "fault": fault, "foreign": foreign})
+        cases.append({"family": "seq", "vol": vol, "steps": steps})
+    return cases
+
+
+def nontrivial(case, obs):
+    fam = case["family"]
+    if fam == "connect":
+        return obs["outcome"] == "fail" and case["fault"][0] >= 1
+    if fam == "single":
+        return obs["outcome"] in ("fail", "cancel", "refused") and (bool(obs["env"]) or (case["fault"] or [0])[0] >= 1)
+    if fam == "overlap":
+        return obs.get("reached") and obs["outcome2"] in ("fail", "cancel", "refused") and bool(obs["held"])
+    return sum(1 for o in obs["steps"] if o["outcome"] in ("fail", "cancel", "refused")) >= 1
+
+
+def run(ctx, only=None):
+    cases = only if only is not None else gen_cases(ctx)
+    evaluated = []
+    lines = []
+    for case in cases:
+        try:
+            obs, ml = evaluate(case)
+        except Exception as ex:  # the harness never crashes on changed code: an observation
+            obs, ml = {"outcome": "err:" + type(ex).__name__, "harness_error": repr(ex)[:300]}, []
+        evaluated.append((case, obs, len(lines), len(ml)))
+        lines += ml
+    answers = ctx.lean(lines)
+    for case, obs, start, cnt in evaluated:
+        fam = case["family"]
+        ctx.note("family:" + fam)
+        if "harness_error" in obs:
+            ctx.disagree(case, obs, "n/a", where="real code raised outside the operation under test")
+            ctx.case(case, False)
+            continue
+        if fam in ("connect", "single"):
+            ctx.note(f"{fam}:outcome:{obs['outcome']}")
+            ctx.note(f"{fam}:fault:{(case['fault'] or [None, 'none'])[1]}")
+        elif fam == "overlap" and obs["reached"]:
+            ctx.note(f"overlap:second:{obs['outcome2']}")
+        elif fam == "seq":
+            for o in obs["steps"]:
+                ctx.note(f"seq:outcome:{o['outcome']}")
+        ctx.case(case, bool(nontrivial(case, obs)), sample={"case": case, "observed": {k: v for k, v in obs.items() if k != "names"}})
+        compare(ctx, case, obs, answers[start:start + cnt])
+        for sig, what in judge(case, obs):
+            ctx.fail(sig, case, {k: v for k, v in obs.items()}, "ledger after a failed/cancelled/refused call = ledger before; later stream_file accepted", what)
+    if only is None:
+        ctx.exhaustive = False
+        ctx.notes["exhaustive_parts"] = ("connect: all 31 non-empty protocol subsets x every failing position; streams: every "
+                                         "collaborator call x {failure, cancellation} for all six script variants; overlaps: every park point")
+
+
+def widen(ctx):
+    run(ctx)
+
+
+def replay(ctx, failure):
+    case = failure["case"]
+    obs, _ = evaluate(case)
+    return bool(judge(case, obs))
+
+
+def shrink(ctx, failure):
+    """Sequences: drop steps while the failure persists."""
+    case = failure["case"]
+    if case.get("family") != "seq":
+        return failure
+    steps = list(case["steps"])
+    i = 0
+    while i < len(steps) and len(steps) > 1:
+        cand = dict(case, steps=steps[:i] + steps[i + 1:])
+        try:
+            obs, _ = evaluate(cand)
+            if any(s == failure["sig"] for s, _w in judge(cand, obs)):
+                steps = cand["steps"]
+                continue
+        except Exception:
+            pass
+        i += 1
+    c2 = dict(case, steps=steps)
+    obs, _ = evaluate(c2)
+    return dict(failure, case=c2, observed=obs)
